@@ -70,4 +70,43 @@ class C09(HndBase):
         return cases
 
 
+from mgrbase import MgrBase, rand_bits
+
+
+class C09Mgr(MgrBase):
+    """manager side of C09: Peer::handle_request after choke rotations (regular and optimistic slots)"""
+    id = "C09"
+    coq_header = ("From Rdest Require Import Base Consts Wire Manager Corr.Mgr.\nOpen Scope N_scope.\n"
+                  "Definition codes := codes09m.\n")
+    rule = ""
+
+    def corpus(self):
+        return []
+
+    def gen(self, rng, tier):
+        k = {"quick": 120, "thorough": 2500, "search": 600}.get(tier, 120)
+        cases = []
+        for _ in range(k):
+            n = rng.choice([2, 3, 5])
+            npeers = rng.choice([2, 5, 11, 12, 14])
+            sts = [rng.choice(["H", "H", "M", "R1"]) for _ in range(n)]
+            ops = ["add %d" % a for a in range(1, npeers + 1)] + ["setst " + ",".join(sts)]
+            alive = list(range(1, npeers + 1))
+            for a in alive:
+                if rng.random() < 0.8:
+                    ops.append("int %d" % a)
+            for _ in range(rng.choice([2, 3, 5])):
+                rates = ["%d:%d" % (a, rng.randrange(50)) for a in alive]
+                rng.shuffle(rates)
+                ops.append("rotate %s %s" % (",".join(rates), "?" if rng.random() < 0.5 else "-"))
+                if rng.random() < 0.4:
+                    ops.append("nint %d" % rng.choice(alive))
+                for _ in range(rng.choice([2, 4, 6])):
+                    ops.append("req %d %d" % (rng.choice(alive), rng.randrange(n + 1)))
+            c = self.mk("raw", n, 4, 4 * n, ops, "manager-upload")
+            cases.append(c)
+        return cases
+
+
 PROP = C09()
+PROP.parts = [PROP, C09Mgr()]
